@@ -301,11 +301,92 @@ def cross_uuid_case(ctx, k, tmp):
                     f'again (no edit): {len(first)} bytes, then {len(second)} different ones', {'case': k, 'format': fmt, 'kind': 'cross-uuid'})
 
 
+def loaded_unresolved_case(ctx, k, tmp):
+    """a resource *loaded* from a document whose references have not been followed yet, saved twice in a row (nothing edited,
+    nothing read in between): the same bytes.  Two shapes: an .ecore whose features are typed by Ecore's own data types and
+    by classes of a registered package (references to elements of a registered metamodel), and an instance document whose
+    hrefs to a second resource are spelt otherwise than pyecore would spell them (`./parts.xmi#…`)."""
+    import os
+    from pyecore import ecore as E
+    from pyecore.resources import ResourceSet, URI
+    from pyecore.resources.json import JsonResource
+    rng = common.sub_rng(ctx.seed, 'C16', 'loaded-unresolved', k)
+    shape = 'ecore' if k % 3 == 0 else 'instances'
+    fmt = 'xmi' if shape == 'ecore' or k % 2 == 0 else 'json'
+    d = os.path.join(tmp, f'lu{k}')
+    os.makedirs(d, exist_ok=True)
+
+    def rset():
+        rs = ResourceSet()
+        rs.resource_factory['json'] = lambda uri: JsonResource(uri)
+        return rs
+    try:
+        if shape == 'ecore':
+            pk = E.EPackage('lu', f'http://verif/c16/lu{k}', 'lu')
+            A, B = E.EClass('A'), E.EClass('B')
+            pk.eClassifiers.extend([A, B])
+            types = [E.EString, E.EInt, E.EBoolean, E.EDouble, E.EDate, E.EJavaObject]
+            for i in range(rng.randint(1, 4)):
+                A.eStructuralFeatures.append(E.EAttribute(f'a{i}', rng.choice(types), upper=rng.choice([1, 1, -1])))
+            A.eStructuralFeatures.append(E.EReference('b', B, upper=rng.choice([1, -1])))
+            if rng.random() < .5:
+                B.eStructuralFeatures.append(E.EReference('meta', E.EClass))          # typed by a class of Ecore itself
+            if rng.random() < .5:
+                B.eSuperTypes.append(A)
+            src = os.path.join(d, 'lu.ecore')
+            r = rset().create_resource(URI(src)); r.append(pk); r.save()
+            rs = rset()
+            loaded = rs.get_resource(URI(src))
+        else:
+            pk = E.EPackage('li', f'http://verif/c16/li{k}', 'li')
+            A = E.EClass('A')
+            pk.eClassifiers.append(A)
+            A.eStructuralFeatures.extend([E.EAttribute('name', E.EString), E.EReference('kids', A, upper=-1, containment=True),
+                                          E.EReference('one', A), E.EReference('many', A, upper=-1, unique=rng.random() < .5)])
+            rs0 = rset()
+            pm, pp = os.path.join(d, f'main.{fmt}'), os.path.join(d, f'parts.{fmt}')
+            rm, rp = rs0.create_resource(URI(pm)), rs0.create_resource(URI(pp))
+            main, parts = A(name='main'), A(name='parts')
+            parts.kids.extend([A(name=f'p{i}') for i in range(rng.randint(2, 4))])
+            rm.append(main); rp.append(parts)
+            main.one = rng.choice(list(parts.kids))
+            main.many.extend(rng.sample(list(parts.kids), rng.randint(1, len(parts.kids))))
+            rp.save(); rm.save()
+            if rng.random() < .7:                                   # another spelling of the same relative path
+                text = open(pm, encoding='utf-8').read()
+                text = text.replace(f'parts.{fmt}#', f'./parts.{fmt}#')
+                open(pm, 'w', encoding='utf-8').write(text)
+            rs = rset()
+            rs.metamodel_registry[pk.nsURI] = pk
+            loaded = rs.get_resource(URI(pm))
+    except Exception as e:
+        ctx.count(f'loaded-unresolved/setup-raised/{type(e).__name__}')
+        return
+    ctx.evaluations += 1
+    ctx.count(f'loaded-unresolved/{shape}/{fmt}')
+    ctx.nontriv(('loaded-unresolved', k))
+    ext = 'ecore' if shape == 'ecore' else fmt
+    o1, o2, o3 = (os.path.join(d, f'out{i}.{ext}') for i in (1, 2, 3))
+    info = {'case': k, 'format': fmt, 'kind': 'loaded-unresolved', 'shape': shape}
+    try:
+        loaded.save(output=URI(o1)); loaded.save(output=URI(o2)); loaded.save(output=URI(o3))
+    except Exception as e:
+        ctx.violate({'clause': 'not-deterministic', 'format': fmt, 'history': 'loaded-unresolved'},
+                    f'saving a freshly loaded resource ({shape}) raised {type(e).__name__}: {e}', info)
+        return
+    b1, b2, b3 = (open(o, 'rb').read() for o in (o1, o2, o3))
+    if not (b1 == b2 == b3):
+        which = 'first and second' if b1 != b2 else 'second and third'
+        ctx.violate({'clause': 'not-deterministic', 'format': fmt, 'history': 'loaded-unresolved'},
+                    f'{fmt}: a resource loaded from a document ({shape}; its references not followed yet) was saved three times in a row, '
+                    f'nothing edited in between: the {which} documents differ', info)
+
+
 def run(ctx):
     common.use_repo()
     n = 80 if ctx.quick() else 2000
     ctx.rule = (f'{n} generated models x XMI/JSON x uuid x serialize-defaults: observable model (canonical dump, eIsSet, ownership) '
-                'before/after save, bytes of two consecutive saves (on the fresh model, after every failed save, and on a resource loaded from a document that declares extra namespace prefixes); then every position at which an unserializable element can be '
+                'before/after save, bytes of two consecutive saves (on the fresh model, after every failed save, and on a resource loaded from a document that declares extra namespace prefixes); a freshly loaded resource whose references were not followed yet (.ecore typed by registered metamodels, instance documents with other spellings of an href) saved three times; then every position at which an unserializable element can be '
                 'planted (an EString value whose conversion raises at each string attribute slot, an instance of a class that is in no '
                 'package in each many-valued containment) with a pre-existing file at the target. non-trivial & distinct = saves that '
                 'completed + faulted saves that raised')
@@ -316,6 +397,7 @@ def run(ctx):
         for k in range(n // 2):
             several_packages_case(ctx, k, tmp)
             cross_uuid_case(ctx, k, tmp)
+            loaded_unresolved_case(ctx, k, tmp)
     finally:
         shutil.rmtree(tmp, ignore_errors=True)
     ctx.assumptions += ['OS-level write failures (disk full) are outside the statement ("cannot be serialized")',
@@ -332,7 +414,10 @@ def replay(ctx, data):
     tmp = tempfile.mkdtemp(prefix='verif_c16_')
     c2 = common.Ctx('C16', data['tier'], data['seed'])
     try:
-        run_case(c2, data['replay']['case'], tmp)
+        r = data['replay']
+        kind = r.get('kind') or ('packages' if r.get('packages') else None)
+        {'cross-uuid': cross_uuid_case, 'loaded-unresolved': loaded_unresolved_case,
+         'packages': several_packages_case}.get(kind, run_case)(c2, r['case'], tmp)
     finally:
         shutil.rmtree(tmp, ignore_errors=True)
     for v in c2.violations[:5]:
